@@ -18,8 +18,10 @@ ASSUMPTIONS = ["events arrive at quiescent points of the event loop; timer ties 
 def run_generic(ctx, monitor, n, nsteps=30, **kw):
     r = ctx.rng
     traces = []
-    for _ in range(n):
-        tr = hostdrive.run_schedule(r, hostdrive.gen_schedule(r, nsteps, **kw))
+    for k in range(n):
+        # every fifth schedule is built around the life cycle of the connection (close / loss / reset, connect again)
+        sched = hostdrive.lifecycle_schedule(r, kw.get("kinds", "GPZDWBEF")) if k % 5 == 4 else hostdrive.gen_schedule(r, nsteps, **kw)
+        tr = hostdrive.run_schedule(r, sched)
         labels = set(l.split(":")[0] for l in tr.labels)
         multi = sum(1 for q in tr.reqs.values() if q["nfrags"] > 1)
         ctx.case(tuple(tr.tokens), nontrivial=len(tr.reqs) >= 2 and len(labels) >= 4,
